@@ -362,7 +362,7 @@ def run_class_members(eng, lang, sym_draws=8, max_fields=1, max_funcs=2):
             reqs = [r for r in w.requests if r['namespace'] == ns + (fn.name,) and not r['in_super_call']]
             out.append(('C01', Ob(U + '|body-requested-in-the-method-scope', bool(reqs), c2)))
             if reqs and fn.get_type() != w.VOID:
-                last = reqs[-1]
+                last = reqs[0]
                 a, b = w.ref.snap(last['type']), w.ref.snap(fn.get_type())
                 out.append(('C01', Ob(U + '|body-type-fits-return-type', _strip_bounds(a) == _strip_bounds(b) or w.ref.sub(a, b),
                                       dict(c2, requested=str(last['type']), return_type=str(fn.get_type())))))
@@ -565,7 +565,8 @@ def run_func_decl(eng, lang, sym_draws=8):
         breqs = [r for r in w.requests if r['namespace'] == ns]
         out.append(('C01', Ob(U + '|body-requested-in-the-function-scope', bool(breqs), case)))
         if breqs and fn.get_type() != w.VOID:
-            last = breqs[-1]
+            # _gen_func_body requests the returned expression first, then the side effects that precede it in the block
+            last = breqs[0]
             a, b = w.ref.snap(last['type']), w.ref.snap(fn.get_type())
             out.append(('C01', Ob(U + '|body-type-fits-return-type', _strip_bounds(a) == _strip_bounds(b) or w.ref.sub(a, b),
                                   dict(case, requested=str(last['type'])))))
@@ -580,7 +581,7 @@ def run_func_decl(eng, lang, sym_draws=8):
                                   any(x is d for x in in_body), dict(case, declaration=d.name, body=type(fn.body).__name__))))
         final_expr = fn.body.body[-1] if isinstance(fn.body, ast.Block) else fn.body
         out.append(('C01', Ob(U + '|body-ends-with-the-requested-expression', isinstance(final_expr, Hole) and
-                              bool(breqs) and final_expr.req is breqs[-1], case)))
+                              bool(breqs) and final_expr.req is breqs[0], case)))
     else:
         out.append(('C01', Ob(U + '|only-abstract-members-lack-a-body', False, case)))
     case['result'] = case['declared']
